@@ -30,6 +30,11 @@ class ES(aenum.Enum, shape=signed(2)):
     B = 1
 
 
+def fresh_int(n):
+    """An int object of its own (CPython shares small ints and constants; equality must not rely on identity)."""
+    return int(str(n))
+
+
 def viol(msg, what, **kw):
     return dict(kind="grid", err=dict(msg=msg, **kw), signature=dict(kind="oracle", what=what))
 
@@ -87,31 +92,31 @@ def signature_grids(tier, out, stats):
     allsigs = []
     # csr.Signature
     items = []
-    for aw, dw in itertools.product((1, 2, 3, 4), (1, 2, 3, 4, 8, 16)):
+    for aw, dw in list(itertools.product((1, 2, 3, 4), (1, 2, 3, 4, 8, 16))) + [(9, 8), (10, 8), (16, 32), (3, 257), (300, 300)]:
         mem = dict(addr=(aw, False, "Out"), r_data=(dw, False, "In"), r_stb=(1, False, "Out"),
                    w_data=(dw, False, "Out"), w_stb=(1, False, "Out"))
-        items.append((("csr", aw, dw), (lambda aw=aw, dw=dw: csr.Signature(addr_width=aw, data_width=dw)), mem))
+        items.append((("csr", aw, dw), (lambda aw=aw, dw=dw: csr.Signature(addr_width=fresh_int(aw), data_width=fresh_int(dw))), mem))
     allsigs += check_grid("csr.Signature", items, out, stats)
     # csr.Element.Signature
     items = []
-    for w, acc in itertools.product((0, 1, 2, 3, 8), ("r", "w", "rw")):
+    for w, acc in itertools.product((0, 1, 2, 3, 8, 64, 256, 257, 288, 1000), ("r", "w", "rw")):
         mem = {}
         if "r" in acc:
             mem.update(r_data=(w, False, "In"), r_stb=(1, False, "Out"))
         if "w" in acc:
             mem.update(w_data=(w, False, "Out"), w_stb=(1, False, "Out"))
-        items.append((("element", w, acc), (lambda w=w, acc=acc: csr.Element.Signature(w, acc)), mem))
+        items.append((("element", w, acc), (lambda w=w, acc=acc: csr.Element.Signature(fresh_int(w), str(acc))), mem))
     allsigs += check_grid("csr.Element.Signature", items, out, stats)
     # csr.FieldPort.Signature: parameters = (cast shape, access)
     shapes = [("u1", unsigned(1)), ("int1", 1), ("u2", unsigned(2)), ("range4", range(4)), ("s2", signed(2)),
               ("range-2..2", range(-2, 2)), ("enum_u2", E2), ("enum_s2", ES), ("u8", unsigned(8)), ("s8", signed(8)),
-              ("u0", unsigned(0))]
+              ("u0", unsigned(0)), ("u257", unsigned(257)), ("s257", signed(257)), ("u300", unsigned(300))]
     items = []
     for (sn, sh), acc in itertools.product(shapes, ("r", "w", "rw", "nc")):
         c = Shape.cast(sh)
         mem = dict(r_data=(c.width, c.signed, "In"), r_stb=(1, False, "Out"), w_data=(c.width, c.signed, "Out"),
                    w_stb=(1, False, "Out"))
-        items.append((("fieldport", c.width, c.signed, acc), (lambda sh=sh, acc=acc: csr.FieldPort.Signature(sh, acc)), mem))
+        items.append((("fieldport", c.width, c.signed, acc), (lambda sh=sh, acc=acc: csr.FieldPort.Signature(type(sh)(fresh_int(sh.width), sh.signed) if isinstance(sh, Shape) else sh, acc)), mem))
     # (several entries share parameters on purpose: they must compare equal)
     allsigs += check_grid("csr.FieldPort.Signature", items, out, stats)
     # wishbone.Signature
@@ -247,7 +252,8 @@ def component_grid(tier, out, stats):
                 connect_ok(ini, wb.wb_bus, f"WishboneCSRBridge(csr {aw}x{dw}, ratio {ratio}).wb_bus", out, stats)
         attempt("csr.Bridge / WishboneCSRBridge", f)
     # event monitor
-    for n, dw, al in itertools.product((0, 1, 3, 9), (1, 8, 16), (0, 2)):
+    for n, dw, al in list(itertools.product((0, 1, 3, 9), (1, 8, 16), (0, 2))) + [(3, 1, 1), (5, 1, 1), (17, 8, 1), (20, 8, 1), (24, 8, 2),
+                                                                                 (33, 8, 1), (40, 16, 1), (65, 32, 1), (70, 8, 3)]:
         def f(n=n, dw=dw, al=al):
             em = event.EventMap()
             for k in range(n):
@@ -376,7 +382,7 @@ def main(tier, seed):
                              checks=["create() round trip", "members", "== against every other signature of the grid"]),
                         dict(connect="wishbone.Interface(0,16) -> wishbone.Decoder(addr_width=0, data_width=16).bus")])
     res = dict(cfg=None, violations=viols)
-    if stats["refused"] > 5 or stats["connects"] < 200:
+    if stats["refused"] > 40 or stats["connects"] < 200:
         res["tool_error"] = f"vacuity guard: {stats['refused']} component configurations refused, {stats['connects']} connect() checks made"
     return finish(PID, tier, seed, "exploration", cov, ASSUMPTIONS, t0, [res])
 
